@@ -65,7 +65,7 @@ def t_router_tla_values():
     for bad in ('{1, 2', '[a |-> ]', '<<1 2>>', '{} {}'):
         try:
             P(bad)
-        except Exception:
+        except (Exception, tb.HarnessError):
             continue
         raise AssertionError("parser accepted %r" % bad)
 
